@@ -195,8 +195,11 @@ def run(ctx):
     ctx.assumptions += [
         "converges holds for every schedule (no order hypothesis) on the tree with F14 and F15; without either it is false "
         "(converges_false_without_F14 / _F15)",
-        "converges_with_rejections / no_injection / 'a round trip takes at most 1 s' are about the tree WITH the proposed fixes F36 / F35 / F39; on the "
-        "current tree the clauses are false (converges_false_without_F36, no_injection_false_without_F35, open findings, replayed on every run)",
+        "converges_with_rejections / no_injection / 'a round trip takes at most 1 s' hold on this tree: F36 abf2660, F35 d2805fe, F39 233d375 are "
+        "committed, the ties accept ONLY their shapes (Tie.LookupSync command_shape, getTopic_precreate_before_start, read_deadline_shape; "
+        "treeF36 = treeF35 = true computed from the facts; converges_with_rejections_this_tree, no_injection_this_tree). "
+        "converges_false_without_F36 / no_injection_false_without_F35 are theorems about the shapes BEFORE the fixes; their findings are listed "
+        "`fixed` and replayed on every run (corpus/C16/fixed/register_rejected.ops, slow_drip_reply.ops, cases prex bad1-3): a reproduction is a VIOLATION",
         "precreate_partial: a lookupd is asked for a new topic's channels only after an IDENTIFY to it has succeeded (precreate_full_false)",
         "'within a few heartbeat intervals' in wall-clock terms, 'does not stop publishing/delivering' and 'receive the very first message' are "
         "measured / tested by the harness, not proved",
@@ -331,7 +334,7 @@ def run(ctx):
                     bad = [b for b in hexset(i) if not valid_name(b)]
                     if not ctx.violation(KEY_NAMES, "GetTopic created channels with invalid names %r taken from a lookupd's "
                                          "/channels answer" % bad, "%s\nimpl : %s\nmodel: %s\n" % (o, i, m)):
-                        continue  # the listed known finding (tree without F35): not a broken correspondence
+                        continue  # only if the key were listed open again; F35 is committed: this is a VIOLATION
                 else:
                     ctx.violation("precreate", "GetTopic pre-created %s, model %s (%s)" % (i, m, o), "%s\n%s\n%s\n" % (o, i, m))
                 corr_broken.append("correspondence " + label)
